@@ -414,6 +414,20 @@ func init() {
 			})
 		}
 		f.boolFact("ingestErrChanHoldsAllWorkers", capOK)
+		// C16: the merger's shared error channel has room for one error per differ goroutine
+		nm := f.funcDecl("pkg/merge/merger.go", "", "NewMerger")
+		mcap := false
+		if nm != nil {
+			ast.Inspect(nm.Body, func(n ast.Node) bool {
+				if c, ok := n.(*ast.CallExpr); ok && f.src(c.Fun) == "make" && len(c.Args) == 2 && f.src(c.Args[0]) == "chan error" {
+					a := f.src(c.Args[1])
+					// senders: one per differ, mergeTables, the collector
+					mcap = a == "len(otherTs)+2" || a == "len(otherTs) + 2" || a == "len(otherTs)+3" || a == "len(otherTs) + 3"
+				}
+				return true
+			})
+		}
+		f.boolFact("mergeErrChanHoldsAllDiffers", mcap)
 		// C06: packfile header bit count
 		eh := f.funcDecl("pkg/encoding/packfile/packfile.go", "", "encodeObjTypeAndLen")
 		bt := f.declType(eh, "bits")
